@@ -14,6 +14,21 @@
  * buffers.  Built with -DDRV_WIPE and --wrap=malloc,--wrap=free the same lines print, instead of
  * data, one event  free:<key|ctr>:<non-zero bytes>:<raw key found>  per block the library hands
  * back to the allocator (contents examined at the moment of free; size known from malloc).
+ *
+ * Built with -DDRV_SELFAIL and --wrap=malloc,--wrap=crypto_aes_key_expand_aesni,
+ * --wrap=crypto_aes_encrypt_block_aesni,--wrap=crypto_aesctr_aesni_stream (AES-NI configuration only):
+ *   drv <n> <k|q>     n = which allocation made INSIDE library calls is refused (0 = none), counted
+ *                     from process start; k / q = the library's first use is a crypto_aes_key_expand /
+ *                     a crypto_aes_can_use_intrinsics call.
+ * Before reading stdin the driver performs that first use (allocations of the self-test included), then
+ * PROBES which implementation each module selected - through the wrapped entry points of the AES-NI
+ * code, which in probe mode only record that they were reached and return:
+ *   sel can_use=<crypto_aes_can_use_intrinsics()> key=<crypto_aes_key_expand built an AES-NI object>
+ *       block=<crypto_aes_encrypt_block went to the AES-NI code> stream16=<a 16-byte crypto_aesctr_stream
+ *       call went to crypto_aesctr_aesni_stream> stream15=<a 15-byte call did> cpu=<cpusupport_x86_aesni()>
+ *       refused=<allocations refused> knull=<key expansions that reported failure (retried once)>
+ * then the case lines are answered as usual (wrappers passing through).  A crypto_aes_key_expand that
+ * returns NULL is a reported failure: it is retried once.
  */
 #include "drv_common.h"
 
@@ -89,6 +104,61 @@ __wrap_free(void * p)
 	__real_free(p);
 }
 #define LIB(kind, secret, call) do { lib_kind = (kind); lib_secret = (secret); call; lib_kind = NULL; lib_secret = NULL; } while (0)
+#elif defined(DRV_SELFAIL)
+void * __real_malloc(size_t);
+void * __real_crypto_aes_key_expand_aesni(const uint8_t *, size_t);
+void __real_crypto_aes_encrypt_block_aesni(const uint8_t[16], uint8_t[16], const void *);
+void __real_crypto_aesctr_aesni_stream(struct crypto_aesctr *, const uint8_t *, uint8_t *, size_t);
+
+static int in_lib = 0;			/* inside an allocating library call */
+static long lib_allocs = 0, fail_nth = 0;
+static int refused = 0, knull = 0;
+static int probing = 0;			/* wrapped AES-NI entry points record and return */
+static int ni_expand = 0, ni_block = 0, ni_stream = 0;
+
+void *
+__wrap_malloc(size_t n)
+{
+
+	if (in_lib && (++lib_allocs == fail_nth)) {
+		refused++;
+		return (NULL);
+	}
+	return (__real_malloc(n));
+}
+
+void *
+__wrap_crypto_aes_key_expand_aesni(const uint8_t * key, size_t len)
+{
+
+	ni_expand++;
+	return (__real_crypto_aes_key_expand_aesni(key, len));
+}
+
+void
+__wrap_crypto_aes_encrypt_block_aesni(const uint8_t in[16], uint8_t out[16], const void * key)
+{
+
+	ni_block++;
+	if (probing) {
+		memset(out, 0, 16);
+		return;
+	}
+	__real_crypto_aes_encrypt_block_aesni(in, out, key);
+}
+
+void
+__wrap_crypto_aesctr_aesni_stream(struct crypto_aesctr * stream, const uint8_t * inbuf, uint8_t * outbuf, size_t buflen)
+{
+
+	ni_stream++;
+	if (probing) {
+		memset(outbuf, 0, buflen);
+		return;
+	}
+	__real_crypto_aesctr_aesni_stream(stream, inbuf, outbuf, buflen);
+}
+#define LIB(kind, secret, call) do { in_lib++; call; in_lib--; } while (0)
 #else
 #define LIB(kind, secret, call) do { call; } while (0)
 #endif
@@ -108,6 +178,68 @@ parse_nonce(const char * s)
 {
 	return ((uint64_t)strtoull(s, NULL, 16));
 }
+
+/* crypto_aes_key_expand; in the allocation-refusal build a reported failure (NULL) is retried once */
+static struct crypto_aes_key *
+expand(const uint8_t * key, size_t klen)
+{
+	struct crypto_aes_key * k = NULL;
+
+	(void)key;	/* only used through the LIB macro of the wipe build */
+	LIB("key", key, k = crypto_aes_key_expand(key, klen));
+#ifdef DRV_SELFAIL
+	if (k == NULL) {
+		knull++;
+		LIB("key", key, k = crypto_aes_key_expand(key, klen));
+	}
+#endif
+	return (k);
+}
+
+#ifdef DRV_SELFAIL
+/* first use of the library as asked for, then: which implementation did each module select? */
+static void
+first_use_and_probe(long nth, int trigger)
+{
+	static const uint8_t pk[32] = { 1, 2, 3, 4, 5, 6, 7, 8, 9, 10, 11, 12, 13, 14, 15, 16 };
+	uint8_t in[16] = { 0 }, out[16];
+	struct crypto_aes_key * k0 = NULL, * k;
+	struct crypto_aesctr * s = NULL;
+	int can_use, key_ni, block_ni, s16, s15;
+
+	fail_nth = nth;
+	if (trigger == 'q')
+		LIB("sel", NULL, (void)crypto_aes_can_use_intrinsics());
+	else
+		k0 = expand(pk, 16);
+	/* the choice is made; observe it */
+	LIB("sel", NULL, can_use = crypto_aes_can_use_intrinsics());
+	ni_expand = 0;
+	k = expand(pk, 32);
+	key_ni = (ni_expand > 0);
+	probing = 1;
+	ni_block = 0;
+	crypto_aes_encrypt_block(in, out, k);
+	block_ni = (ni_block > 0);
+	LIB("ctr", NULL, s = crypto_aesctr_init(k, 1));
+	if (s == NULL)
+		LIB("ctr", NULL, s = crypto_aesctr_init(k, 1));
+	ni_stream = 0;
+	crypto_aesctr_stream(s, in, out, 16);
+	s16 = (ni_stream > 0);
+	crypto_aesctr_init2(s, NULL, 1);
+	ni_stream = 0;
+	crypto_aesctr_stream(s, in, out, 15);
+	s15 = (ni_stream > 0);
+	probing = 0;
+	crypto_aesctr_free(s);
+	crypto_aes_key_free(k);
+	crypto_aes_key_free(k0);
+	printf("sel can_use=%d key=%d block=%d stream16=%d stream15=%d cpu=%d refused=%d knull=%d\n",
+	    can_use, key_ni, block_ni, s16, s15, cpusupport_x86_aesni(), refused, knull);
+	fflush(stdout);
+}
+#endif
 
 static void
 do_block(char ** tok, int n, int direct)
@@ -131,8 +263,7 @@ do_block(char ** tok, int n, int direct)
 		printf("unsupported\n"); free(key); return;
 #endif
 	} else {
-		struct crypto_aes_key * k = NULL;
-		LIB("key", key, k = crypto_aes_key_expand(key, klen));
+		struct crypto_aes_key * k = expand(key, klen);
 		printf("ok");
 		for (i = 2; i < n; i++) {
 			size_t bl; uint8_t * in = drv_unhex(tok[i], &bl, 0);
@@ -170,7 +301,7 @@ do_ctr(char ** tok, int n)
 		case 'K': {
 			size_t klen; uint8_t * key = drv_unhex(arg, &klen, 0);
 			if (nkeys == MAXKEYS) { printf(" too-many-keys"); free(key); break; }
-			LIB("key", key, cur = crypto_aes_key_expand(key, klen));
+			cur = expand(key, klen);
 			keys[nkeys++] = cur;
 			free(key);	/* the library must not depend on the caller's copy */
 			break;
@@ -230,12 +361,17 @@ do_ctr(char ** tok, int n)
 }
 
 int
-main(void)
+main(int argc, char ** argv)
 {
 	char * line; static char * tok[4096];
 	int path;
 
 	setvbuf(stdout, NULL, _IOLBF, 0);
+#ifdef DRV_SELFAIL
+	first_use_and_probe(argc > 1 ? strtol(argv[1], NULL, 10) : 0, argc > 2 ? argv[2][0] : 'k');
+#else
+	(void)argc; (void)argv;
+#endif
 	/* run the one-time implementation selection (and its self-test allocations) first */
 	path = crypto_aes_can_use_intrinsics();
 	while ((line = drv_getline()) != NULL) {
